@@ -354,6 +354,12 @@ func checkPrepubRemovals(c *eng.Ctx, rule string) {
 					if call, _ := eng.TupleCall(v); call != nil && eng.CalleeIs(&call.Call, "encoding/json", "Unmarshal") {
 						okReset = true
 					}
+					// (a validity gate that answers with an error)
+					if call, _ := eng.TupleCall(v); call != nil {
+						if cal := eng.Callee(&call.Call); cal != nil && cal == anchor(c.P, setecPkg, "(*Store).isActiveSetValid") {
+							okReset = true
+						}
+					}
 				}
 				if call, _, truth, isCall := cond.BoolCall(); isCall && !truth {
 					if cal := eng.Callee(&call.Call); cal != nil && cal == anchor(c.P, setecPkg, "(*Store).isActiveSetValid") {
